@@ -552,7 +552,9 @@ class TensorDictSequential(TensorDictModule):
         if isinstance(self.module, nn.ModuleList):
             return type(self)(*modules)
         else:
-            keys = [key for key in self.module if self.module[key] in modules]
+            # the kept modules are addressed by position: a nested sequence that went through
+            # its own select_subsequence is a new object and would not be found by identity
+            keys = [key for i, key in enumerate(self.module.keys()) if i in id_to_keep]
             modules_dict = collections.OrderedDict(
                 **{key: val for key, val in _zip_strict(keys, modules)}
             )
